@@ -29,6 +29,10 @@ CLAIMS = {
           "Invariant on every suggest of every simulated run (histories with pending, failed and observed trials produced by real schedules and faults): keys/constants/type/membership by independent domain code, initial points first by an independent mid-point rule, no repeats for no-repeat searchers, exhaustion only when the (effective) finite space or the documented grid is used up.",
           "The for-all-config-space half is only sampled (spaces are redrawn per run); quantised domains are judged by bounds and type only; log-scaled integer grids are not judged for grid search.",
           "deterministic simulation: invariant checked at every suggest over generated histories"),
+  "C10": ("exploration", "5/C10",
+          "The real simulator back-end (UserBlackboxBackend/SimulatorBackend/SimulatorCallback) runs generated tables (1-3 seeds, monotone/noisy/non-monotone elapsed time, all five delays incl. 0, sleep time, injected compute latency, failures, checkpointing on/off, with/without max_resource_attr) under every model-free scheduler; every planned and registered result is recomputed from the table: values, one seed per trial, consecutive levels from the resume point, elapsed time since resume, time stamp = start + delays + elapsed, monotone clock, waiting charged exactly once.",
+          "Table contents are a deterministic function of the scenario (recomputed by the oracle); the back-end's 'time spent outside' clock is a harness-owned value bumped only by injected latency; one-column tables are not generated (BlackboxTabular lookup fails with this pandas, see DESIGN).",
+          "deterministic simulation of the simulator back-end; table/time recomputation oracle"),
   "C12": ("exploration", "5/C12",
           "Simulated runs over every StoppingCriterion field and pairs, wait/async/start-without-delay options, failures beyond max_failures, jobs exiting without report, exceptions thrown into the loop: loop ends at the first loop end where the criterion holds, no start after, bounded overshoot, nothing alive afterwards, stop_all called, results stored, counters consistent, only documented exceptions.",
           "'Left running' is judged on W-MEM/W-LOCAL worker ground truth; for exceptions injected between start_trial and the status update the started-counter may lag by that one trial.",
